@@ -93,6 +93,11 @@ impl Case {
             Answer::Key { key, identity } => format!("K{}:{}", hx(key), hx(identity.as_bytes())),
             Answer::Err(e) => perr(e),
         };
+        // The model lower-cases declared names as ASCII; the crate uses Unicode `str::to_lowercase`. The two
+        // differ only on non-ASCII characters, so names containing any are handed to the model already
+        // lower-cased by Rust's own `to_lowercase` (the Kelvin sign U+212A, whose lower case is the ASCII 'k', is
+        // the one character for which this can change a match against an HTTP header name).
+        let decl = |l: &Vec<String>| -> Vec<String> { l.iter().map(|n| if n.is_ascii() { n.clone() } else { n.to_lowercase() }).collect() };
         format!(
             "{} {} {} {} {} {} {} {} {} {} {} {} {} {} {} {}",
             self.s3 as u8,
@@ -100,9 +105,9 @@ impl Case {
             hx(self.region.as_bytes()),
             hx(self.service.as_bytes()),
             self.now_ns(),
-            hx_list(&self.always),
-            hx_list(&self.ifreq),
-            hx_list(&self.prefixes),
+            hx_list(&decl(&self.always)),
+            hx_list(&decl(&self.ifreq)),
+            hx_list(&decl(&self.prefixes)),
             hx(self.method.as_bytes()),
             hx(path.as_bytes()),
             hx_opt(query.map(|q| q.as_bytes())),
